@@ -94,6 +94,14 @@ def state(index, rep):
               "process-wide conversion settings are written outside UnitConversions.set_nutrition_requirements: " +
               "; ".join(f"{q} sets .{a} ({rel}:{st.lineno})" for rel, st, q, a in writers[:4]),
               loc=loc(writers[0][0], writers[0][1]) if writers else FOOD)
+    from .memo import shared_instance_containers, process_wide_classes
+    shared_cls, _ = process_wide_classes(index)
+    rep.note_analysed("process_wide_instances", {k: [f"{r}:{st.lineno}" for r, st in v] for k, v in shared_cls.items()})
+    sic = shared_instance_containers(index)
+    rep.check(not sic, rule, "process-wide-objects:no-container-filled-by-runs",
+              "an object created once at import keeps a container that run code fills: " + "; ".join(
+                  f"{cn}.{attr} at {sites[:3]}" for _, cn, attr, sites, _ in sic[:3]) + " - a later run reads what an earlier run left there",
+              loc=loc(sic[0][0], sic[0][4]) if sic else FOOD)
     rep.check(not rebinds, rule, "conversions:never-rebound",
               "the shared conversions object is replaced: " + "; ".join(f"{q} ({rel}:{st.lineno})" for rel, st, q in rebinds[:4]),
               loc=loc(rebinds[0][0], rebinds[0][1]) if rebinds else FOOD)
